@@ -4,3 +4,5 @@
 
 #[cfg(kani)]
 mod c14;
+#[cfg(kani)]
+mod c19;
